@@ -5,6 +5,7 @@ import (
 	"math/rand"
 	"strings"
 
+	"github.com/advancedclimatesystems/gonnx"
 	"github.com/advancedclimatesystems/gonnx/onnx"
 	"github.com/advancedclimatesystems/gonnx/ops/opset13"
 	"gorgonia.org/tensor"
@@ -209,6 +210,69 @@ func genC06(dir, tier string, seed int64) {
 			same := tval(yy) == tval(whole[0]) && tval(o2[1]) == tval(whole[1])
 			if op == "LSTM" {
 				same = same && tval(o2[2]) == tval(whole[2])
+			}
+			if same && k == 1 && !f64 {
+				// the same split INSIDE ONE GRAPH: the first node hands over only its final state(s) (its Y output
+				// is left unnamed), the second node skips sequence_lens with "" and starts from them
+				split.N++
+				var ap []*onnx.AttributeProto
+				for _, a := range cfg.attrs {
+					ap = append(ap, a.proto())
+				}
+				names := []string{"x", "w", "r", "b", "", "h0", "c0", "p"}
+				inits := map[string]tensor.Tensor{}
+				n1, n2 := make([]string, len(ins)), make([]string, len(ins))
+				for i, t := range ins {
+					if t == nil {
+						continue
+					}
+					n1[i], n2[i] = names[i], names[i]
+					if i > 0 {
+						inits[names[i]] = t.Clone().(tensor.Tensor)
+					}
+				}
+				n1[0], n2[0] = "x1", "x2"
+				for len(n2) < 6 {
+					n2 = append(n2, "")
+				}
+				n2[5] = "h1"
+				o1n, o2n := []string{"", "h1"}, []string{"Y2", "h2"}
+				if op == "LSTM" {
+					for len(n2) < 7 {
+						n2 = append(n2, "")
+					}
+					n2[6] = "c1"
+					o1n, o2n = []string{"", "h1", "c1"}, []string{"Y2", "h2", "c2"}
+				}
+				mb := realModel([]string{"x1", "x2"}, map[string]int{"x1": 3, "x2": 3}, inits,
+					[]realNode{{op: op, attrs: ap, in: n1, out: o1n}, {op: op, attrs: ap, in: n2, out: o2n}}, o2n)
+				func() {
+					defer func() {
+						if rec := recover(); rec != nil {
+							split.Violations = append(split.Violations, fmt.Sprintf("%s: the two-node split graph panicked: %v", op, rec))
+						}
+					}()
+					m, err := gonnx.NewModelFromBytes(mb)
+					if err != nil {
+						split.Violations = append(split.Violations, fmt.Sprintf("%s: the two-node split graph does not load: %v", op, err))
+						return
+					}
+					out, err := m.Run(gonnx.Tensors{"x1": X1.Clone().(tensor.Tensor), "x2": X2.Clone().(tensor.Tensor)})
+					if err != nil {
+						if len(split.Violations) < 10 {
+							split.Violations = append(split.Violations, fmt.Sprintf("%s attrs %v: the split as ONE GRAPH (first node's Y unnamed, second node skipping sequence_lens) fails although both pieces run on their own: %v", op, attrKinds(cfg.attrs), err))
+						}
+						return
+					}
+					for j, nm := range o2n {
+						if out[nm] == nil || tval(out[nm]) != tval(o2[j]) {
+							if len(split.Violations) < 10 {
+								split.Violations = append(split.Violations, fmt.Sprintf("%s attrs %v: output %s of the split as one graph differs from the second piece run on its own", op, attrKinds(cfg.attrs), nm))
+							}
+							return
+						}
+					}
+				}()
 			}
 			if !same && len(split.Violations) < 10 {
 				split.Violations = append(split.Violations, fmt.Sprintf("%s seq %d batch %d input %d hidden %d attrs %v split at %d: pieces give %s | %s, whole gives %s | %s", op, S, B, In, H, attrKinds(cfg.attrs), k, clip(tval(yy), 200), clip(tval(o2[1]), 120), clip(tval(whole[0]), 200), clip(tval(whole[1]), 120)))
